@@ -34,7 +34,7 @@ CLAIMED = {
          "All pairings and escapes without which some schedule provably blocks Wait forever are decided on every path: schema classification of every blocking operation, wait-group pairing, terminal-state-implies-cancel chain (trigger, render closure counter, flush cancel), one frame per render, producer-closed iterators, FIFO heap requests never issued while iterating, new bars announced with sync=true, balanced width exchanges, heap protocol table, reply pairing, created bars pushed or parked. Two open known findings (lost queued successor) are reported as KNOWN-FINDING.",
          NOTE + "Absence of deadlock as a global property of all schedules is not decided (that needs a schedule explorer); user callbacks are assumed to return; fairness assumed.", "DESIGN.md §4 C01"),
  "C03": ("who-may-call/role analysis + ordering rules on SSA paths",
-         "No byte after Wait (writer confined to the container role; Wait/Shutdown ordering; deferred pwg.Done), terminal bars drawn before cancel (counter copied before increment; cancel at the cancelling value), final render before the end request under auto refresh and repeated while the heap reports change, every non-error path of flush ends in the writer's Flush, final values survive exit, completed implies current == total.",
+         "No byte after Wait (writer confined to the container role; Wait/Shutdown ordering; deferred pwg.Done), terminal bars drawn before cancel (counter copied before increment; cancel at the cancelling value), final render before the end request under auto refresh and repeated while the heap reports change, every non-error path of flush ends in the writer's Flush, final values survive exit, completed implies current == total; the on-complete / on-abort wrappers and filler options show their decoration exactly on paths that carry Statistics.Completed / Aborted; the terminal probes (IsTerminal, GetSize) answer from the success of their system call and the Windows console is cleared by moving the cursor up by the remembered line count.",
          NOTE + "Frame contents are not interpreted; manual-refresh containers excluded; convergence of the final loop in a bounded number of cycles is not decided.", "DESIGN.md §4 C03"),
  "C10": ("actor-confinement analysis: provenance of base pointers over SSA + VTA/CHA call graph, per-field access classification",
          "For bState, pState, Bar and the cwriter buffer every field access is classified (pre-publication, owner, post-exit, hand-over, other) and the per-field confinement rule is decided; whole-struct loads count as reads of every field; at most one inbox offer per exported operation on any path; owner loops call received closures synchronously; decorator state mutated only by the bar actor roles; nothing touches the state after publication.",
@@ -58,7 +58,7 @@ CLAIMED = {
          "Less is a direct strict comparison of the two priorities (no overflowing arithmetic) and its orientation agrees with the reversed output loop and the reversed per-bar row collection; the fix arm is guarded by index >= 0, stores then fixes unless lazy; Swap/Push/Pop keep Bar.index consistent; default priority is the creation counter; successor inherits at the swap; pop priority assigned then advanced; API forwards (bar, priority, lazy).",
          NOTE + "Per-frame order under racing updates is not decided; container/heap is trusted.", "DESIGN.md §4 C06"),
  "C07": ("loop-termination classification (ranking arguments per natural loop, E5) + guarded-effect width accounting",
-         "Every natural loop on the render/heap path has a stated ranking argument (range, counting with provably positive loop-invariant step, two-pointer, drain), recursion only through data-bounded delegation; decorator text is written in full only under AvailableWidth - width >= 0, truncated only under AvailableWidth > 0, with the width accounted; spacers kept only with room; fillers return before writing when their width does not fit (the brackets written around the body are exactly what is taken off the allotted width); every advance of the cell counter is guarded by the space left; style components are built as (StringWidth(x), []byte(x)) of one text; the statistics snapshot hands on the renderer's width; sizes come from the terminal query (columns, rows) or the requested width; every built-in Decor returns its Format width. A complete termination decision for library code assuming library callees terminate.",
+         "Every natural loop on the render/heap path has a stated ranking argument (range, counting with provably positive loop-invariant step, two-pointer, drain), recursion only through data-bounded delegation; decorator text is written in full only under AvailableWidth - width >= 0, truncated only under AvailableWidth > 0, with the width accounted; spacers kept only with room; fillers return before writing when their width does not fit (the brackets written around the body are exactly what is taken off the allotted width); every advance of the cell counter is guarded by the space left; style components are built as (StringWidth(x), []byte(x)) of one text; the statistics snapshot hands on the renderer's width; sizes come from the terminal query (columns, rows) or the requested width; every built-in Decor returns its Format width; a tip frame is written only when it was counted; the spinner body is position(frame, width - width(frame)) with paddings that add up to the pad; Add keeps the caller's filler unless it is nil. A complete termination decision for library code assuming library callees terminate.",
          NOTE + "Display width of actual strings (runewidth semantics) is not computed.", "DESIGN.md §4 C07"),
  "C08": ("overflow taint + monotone-composition lattice + structural relation of fill/refill widths (E6)",
          "No integer product/shift of total/current/refill anywhere in the percentage path; negativity guard before int64->uint; every piece of the helper non-decreasing in current, full width at/after total, zero for total 0; wrapper rounds; filler relates filled and refill widths without further adjustment and accounts exactly the cells it appends; SetRefill caps at current.",
@@ -67,7 +67,7 @@ CLAIMED = {
          "Each forwarding method makes exactly one wrapped call with its argument passed through, returns (n, err) unchanged and accounts n exactly once on every path (timed Ewma flavour for the ewma proxies); constructors (helpers inlined) offer WriteTo/ReadFrom exactly on paths with the successful assertion on the caller's value and return a type whose accounting methods (own and promoted) are all of the Ewma kind exactly under the flag, which is len(ewmaDecorators) != 0; Close is promoted from the embedded interface; closers wrap or return the argument itself; the no-op closer preserves ReaderFrom. With C09 this is close to the whole property.",
          NOTE + "io.NopCloser is trusted; the bar-side counting rules are C09.", "DESIGN.md §4 C19"),
  "C20": ("table agreement (E9) + divisor guards and overflow taint (E6) + estimator conservation by path enumeration + algebraic normal forms of the printed quantities",
-         "Unit chosen on every path of both size formats is the greatest threshold reached, suffix is that unit's name, tables are siblings; no integer product in the percentage path; every float division has a non-zero divisor on every path; each EwmaUpdate conserves time (carry or add-and-reset, siblings agree); samples reach every estimator through the recursive unwrap; wrappers implement Unwrap; elapsed/average speed freeze after completion; h/m/s components are (d/unit)%60; the quantity each rate/ETA decorator prints has the documented normal form (coefficient x powers of current, total-current, elapsed, moving average - conversions, rounding and Seconds() transparent); counters and speed producers print the documented quantities in the selected unit.",
+         "Unit chosen on every path of both size formats is the greatest threshold reached, suffix is that unit's name, tables are siblings; no integer product in the percentage path; every float division has a non-zero divisor on every path; each EwmaUpdate conserves time (carry or add-and-reset, siblings agree); samples reach every estimator through the recursive unwrap; wrappers implement Unwrap; elapsed/average speed freeze after completion; h/m/s components are (d/unit)%60; the quantity each rate/ETA decorator prints has the documented normal form (coefficient x powers of current, total-current, elapsed, moving average - conversions, rounding and Seconds() transparent); counters and speed producers print the documented quantities in the selected unit; the default format is installed iff the caller's is empty; hh:mm:ss components are printed in order and mm:ss only under hours <= 0; a sample is carried only when unusable and never added when infinite/NaN; the optional normaliser is called iff non-nil; no estimator is built around a nil average; the median is the middle element of a sorted copy.",
          NOTE + "Read-back accuracy of printed numbers and printf verb handling are value-level and not decided.", "DESIGN.md §4 C20"),
 }
 PENDING_REASON = "check not built yet (DESIGN.md §7: a property is claimed only once its rules are built and silent on the repaired tree)"
